@@ -536,7 +536,7 @@ def g_cell(s):
 
 
 def g_rows(s, min_rows=1, max_rows=3, header=None):
-    w = s.rng(1, 3) if header is None else len(header)
+    w = (s.rng(1, 3) if s.int(12) else 0) if header is None else len(header)  # w == 0: rows that are a lone '|'
     rows = []
     for i in range(s.rng(min_rows, max_rows)):
         cells = [g_cell(s) for _ in range(w)]
@@ -589,7 +589,7 @@ def g_examples(s, dialect, D):
     if s.int(6) == 0:
         e["rows"] = None
     else:
-        hdr = [s.choice(HEADERS) for _ in range(s.rng(1, 3))]
+        hdr = [s.choice(HEADERS) for _ in range(s.rng(1, 3) if s.int(12) else 0)]
         e["rows"] = g_rows(s, 1, 3, header=hdr)
     return e
 
